@@ -251,6 +251,13 @@ func (sg *stGen) plugin() stPlugin {
 	n := 1 + g.R.Intn(3)
 	for i := 0; i < n; i++ {
 		st := &stStep{ID: fmt.Sprintf("step%d", i), Input: sg.scope()}
+		if g.R.Intn(4) == 0 {
+			// an input whose root object has exactly one property: the bare value of that property is
+			// accepted in place of the map (single-property shorthand)
+			leaf := []*hx.Ty{{T: "str"}, {T: "int"}, {T: "bool"}, {T: "list", Item: &hx.Ty{T: "str"}}}[g.R.Intn(4)]
+			st.Input = &hx.Ty{T: "scope", Root: "In", Objs: []hx.NamedObj{{ID: "In", Ty: &hx.Ty{T: "obj", ID: "In",
+				Props: []hx.NamedProp{{Name: "only", P: &hx.Prop{Ty: leaf, Required: g.R.Intn(2) == 0}}}}}}}
+		}
 		outNames := []string{"success", "error", "other"}
 		for _, name := range outNames[:1+g.R.Intn(3)] {
 			st.Outputs = append(st.Outputs, stNamedTy{name, sg.scope()})
@@ -266,6 +273,19 @@ func (sg *stGen) plugin() stPlugin {
 // rawFor: a raw value for schema t. kind: valid (type-directed, mostly accepted), random, nil.
 func (sg *stGen) rawFor(t *hx.Ty) (*hx.Val, string) {
 	g := sg.g
+	if t.T == "scope" && len(t.Objs) == 1 && len(t.Objs[0].Ty.Props) == 1 && g.R.Intn(2) == 0 {
+		leaf := t.Objs[0].Ty.Props[0].P.Ty
+		switch leaf.T {
+		case "str":
+			return []*hx.Val{hx.Str("Arca Lot"), hx.Int("int64", 3), hx.F64(1.5)}[g.R.Intn(3)], "shorthand"
+		case "int":
+			return []*hx.Val{hx.Int("int64", 3), hx.Str("3"), hx.Uint("uint8", 7), hx.Str("x")}[g.R.Intn(4)], "shorthand"
+		case "bool":
+			return []*hx.Val{hx.Bool(true), hx.Str("yes"), hx.Int("int64", 0)}[g.R.Intn(3)], "shorthand"
+		default:
+			return []*hx.Val{hx.List(hx.Str("a"), hx.Str("b")), hx.List()}[g.R.Intn(2)], "shorthand"
+		}
+	}
 	switch r := g.R.Intn(100); {
 	case r < 68:
 		// type-directed; retried a few times until a separately built schema accepts it
